@@ -426,7 +426,11 @@ def parse_opcode(p: Parser) -> OpcodeAstNode:
     addressing_mode, inner_index, operand = parse_operand_and_addressing(addressing_mode, opcode, p)
 
     if accept_token(p.current(), TokenType.ADDRESSING_MODE_INDEX):
-        index = p.next().value.lower()
+        index_token = p.next()
+        index = index_token.value.lower()
+        if inner_index is not None and (inner_index, index) != ("s", "y"):
+            # only (sr,s),y exists: (dp,x),y and (dp,y),y must not assemble as it.
+            raise ParserSyntaxError(f"Invalid index combination ({inner_index}),{index}", index_token)
         addressing_mode = index_map[addressing_mode]
 
     return OpcodeAstNode(
